@@ -4,6 +4,7 @@
 From stdpp Require Import gmap.
 From Coq Require Import NArith String.
 From EKW Require Import Sched.Model.
+From EKW Require Sched.Lit.
 
 Record round := {
   r_ctl : list label;            (* LAssign ... LAssign LFlush, as the controller did them *)
